@@ -11,19 +11,20 @@ Local Open Scope N_scope.
 (* schema field kinds (Generated.v): 0 String/DID, 1 Bytes, 2 Int, 3 Any, 4 {String:Any}, 5 [Link], 6 Link *)
 Definition in_int64 (z : Z) : bool := ((- 9223372036854775808 <=? z) && (z <=? 9223372036854775807))%Z.
 Definition is_link (n : node) : bool := match n with Link _ => true | _ => false end.
+Definition is_null (v : node) : bool := match v with Null => true | _ => false end.
+Definition no_null_values (m : list (str * node)) : bool := forallb (fun kv => negb (is_null (snd kv))) m.
+
 Definition kind_ok (k : N) (v : node) : bool :=
   (k =? 3) ||
   match v with
   | Str _ => (k =? 0)
   | Bytes _ => (k =? 1)
   | Int z => (k =? 2) && in_int64 z
-  | Map _ => (k =? 4)
+  | Map m => (k =? 4) && forallb (fun kv => negb (is_null (snd kv))) m    (* bindnode refuses null values in {String:Any} *)
   | List l => (k =? 5) && forallb is_link l
   | Link _ => (k =? 6)
   | _ => false
   end.
-Definition is_null (v : node) : bool := match v with Null => true | _ => false end.
-
 Definition schema := list (str * N * bool * bool).    (* name, kind, optional, nullable *)
 
 Fixpoint keys_nodup (m : list (str * node)) : bool :=
@@ -145,6 +146,7 @@ Record dlg_constructed (t : dtok) : Prop := {
   dc_cmd : Command.parse (dk_cmd t) = Ok (dk_cmd t);
   dc_pol : Forall wf_stmt (dk_pol t) /\ ints_in53 (pol_to_ipld (dk_pol t)) = true;
   dc_nonce : (12 <= length (dk_nonce t))%nat;
+  dc_meta : no_null_values (dk_meta t) = true;
   dc_nbf : opt_in53 (dk_nbf t); dc_exp : opt_in53 (dk_exp t)
 }.
 Record inv_constructed (t : itok) : Prop := {
@@ -153,5 +155,6 @@ Record inv_constructed (t : itok) : Prop := {
   ic_cmd : Command.parse (ik_cmd t) = Ok (ik_cmd t);
   ic_args : forallb (fun kv => ints_in53 (snd kv)) (ik_args t) = true /\ keys_nodup (ik_args t) = true;
   ic_nonce : (12 <= length (ik_nonce t))%nat;
+  ic_meta : no_null_values (ik_meta t) = true /\ no_null_values (ik_args t) = true;
   ic_exp : opt_in53 (ik_exp t); ic_iat : opt_in53 (ik_iat t)
 }.
